@@ -13,6 +13,24 @@ TRUST = ("Trusted: go/types, go/ssa, go/packages (x/tools v0.29.0), the Go front
          "Dead code is analysed like live code. Not a proof of the behavioural statement: ")
 
 CLAIMED = {
+    "C04": {
+        "technique": "statement-level path counting over go/cfg (sends per goroutine path, receives/decrements per barrier iteration, must-pass-through to the manifest write) plus SSA value-origin checks of completion values and recursive-call arguments",
+        "text": "Ordering core, decided for every schedule and fault because it is the shape of the CFG: each goroutine of the copy traversal is counted before it starts and sends exactly one completion on every path after its last client call; every iteration path of the barrier loop is one receive + one decrement (the early non-blocking loop balances receives and decrements, with its flag tracked); every path to the ManifestPut passes the barrier exit and the nil edge of the received error; no spawn after the barrier, nothing mutating after the write; nested manifests go by digest with the child flag, tags without it; a failed source read / target write in BlobCopy never reaches `return nil`; the shared seen-entry is completed with the copy's own error.",
+        "note": "what registries do with accepted requests, cancellation timing inside third-party code, and finalFn retries (after the top-level write by design) are not decided.",
+        "design": "DESIGN.md §3 C04",
+    },
+    "C06": {
+        "technique": "must-hold lockset dataflow with the `locked bool` idiom summarised per constant argument, AST lint for delete-while-ranging-forward (with an embedded positive example), SSA value-origin and loop-exit classification",
+        "text": "Structural necessary conditions of the tag map: every access to mutex-guarded layout state and every index read/write helper runs with the layout mutex held, helpers that run under the caller's lock never release or re-take it, each index read-modify-write function holds the lock from read to write; no forward range loop shrinks the slice it ranges over in the tag/referrer table packages; the registry tag-delete fallback deletes the digest of the placeholder it pushed (built by manifest.New, carrying time.Now()), only after the push succeeded; the tag listing loop exits only on limit / error / no next link and appends every page.",
+        "note": "agreement with a reference map over all histories, indexSet pruning semantics, foreign ref.name forms and registry-side semantics are not decided (seeded changes C06-1 cache key and C06-2 lookup order are not detected, see DESIGN.md).",
+        "design": "DESIGN.md §3 C06",
+    },
+    "C07": {
+        "technique": "who-may-write audit of scheme/ocidir over resolved callees, value-origin of file handles and rename sources, dominance + error-edge guards (go/ssa)",
+        "text": "Write discipline that holds at every crash point because it is the set of system calls the code can issue: in scheme/ocidir only MkdirAll, CreateTemp, writes to a CreateTemp handle, Rename from that temp file's name and Remove exist (no Create/WriteFile/OpenFile-for-write/Truncate); each Rename is dominated by the write and Close of its temp file and runs only on their nil-error edges; manifest file renamed before the index update (unreachable from the rename's error edge); on delete the index is rewritten before the file is removed; the sweep only removes <layout>/blobs/<entry>/<entry>.",
+        "note": "fsync/power loss, layouts written by other tools, file contents (C02/C05) and externally damaged indexes are not decided.",
+        "design": "DESIGN.md §3 C07",
+    },
     "C12": {
         "technique": "custom SSA/CFG checks: request-literal field audit, natural-loop bound classification, retry-counter write discipline, abstract evaluation of the mirror comparator over all atom orderings, must-pass-through release check",
         "text": "Structural necessary conditions, exhaustive over the enumerated sites: every state-changing reghttp.Req literal carries NoMirrors; mirrors are consulted only under !NoMirrors; every loop in reghttp/auth/scheme-reg that can repeat an HTTP request is range-bounded, counter-bounded on every cycle, a listed pager, or the chunk loop with a limit test after every retry increment; the attempt counter is decremented only by Seek; the mirror comparator is evaluated abstractly for every consistent ordering of its atoms against the documented order (known finding D1: priority ascending); the stored throttle slot is released before re-acquisition. Static shape holds for every fault sequence and configuration, which is what the tests cannot enumerate.",
